@@ -29,8 +29,9 @@ class Kernel:
 
 
 class KGen:
-    def __init__(self, rng, real_only=False, allow_unsafe=True, passive_temps=True, cond_on_reals=True):
+    def __init__(self, rng, real_only=False, allow_unsafe=True, passive_temps=True, cond_on_reals=True, shift=0):
         self.r = rng
+        self.shift = shift          # compiled tier: arrays declared (0:40), every subscript shifted by `shift`
         self.real_only = real_only
         self.allow_unsafe = allow_unsafe
         self.passive_temps = passive_temps and not real_only
@@ -58,7 +59,26 @@ class KGen:
             return r.choice(self.ptemps)
         return "q"
 
+    def _sh(self, e):
+        """add the constant `shift` to a subscript, keeping the canonical form `base ± c` (SymPy's
+        expand rewrites right-hand sides into that form; the model compares subscripts syntactically)"""
+        if not self.shift:
+            return e
+        import re
+        if re.fullmatch(r"\d+", e):
+            return str(int(e) + self.shift)
+        m = re.fullmatch(r"(.*?) ([+-]) (\d+)", e)
+        base, c = (m.group(1), int(m.group(3)) * (1 if m.group(2) == "+" else -1)) if m else (e, 0)
+        c += self.shift
+        return base if c == 0 else f"{base} {'+' if c > 0 else '-'} {abs(c)}"
+
     def index(self, live, wide=True):
+        return self._sh(self._index(live, wide))
+
+    def index2(self, live):
+        return self._sh(self._index2(live))
+
+    def _index(self, live, wide=True):
         r = self.r
         if live and r.random() < 0.85:
             v = r.choice(live)
@@ -78,7 +98,7 @@ class KGen:
             return r.choice(["n1", "n2", "n1 + 1"])
         return str(r.randint(0, 8))
 
-    def index2(self, live):
+    def _index2(self, live):
         r = self.r
         if live and r.random() < 0.85:
             v = r.choice(live)
@@ -128,6 +148,8 @@ class KGen:
                 self.features.add("same-array")
             else:
                 ref = self.aref(live)
+                if not self.allow_unsafe and ref != lhs and ref.split("(")[0] == lhs.split("(")[0]:
+                    ref = lhs       # tame mode: the LHS array only through the LHS reference itself
             t = self.term(live, ref)
             op = r.choice(["+", "+", "-"])
             parts.append((op, t))
@@ -139,6 +161,8 @@ class KGen:
     def bound(self, lo_side):
         r = self.r
         if self.real_only or r.random() < 0.5:
+            if not self.allow_unsafe:
+                return str(r.randint(0, 3) if lo_side else r.randint(4, 8))
             return str(r.randint(0, 4) if lo_side else r.randint(3, 8))
         x = r.random()
         if x < 0.4:
@@ -234,13 +258,15 @@ class KGen:
             args += ["n1", "n2", "k1", "lg"]
         r.shuffle(args)
         decl = []
+        a_dim = f"{A_LO}:{A_HI}" if not self.shift else "0:40"
+        m_dim = f"{M_LO}:{M_HI}" if not self.shift else "0:24"
         for a in self.arrays1:
-            decl.append(f"  real, intent(inout) :: {a}({A_LO}:{A_HI})")
+            decl.append(f"  real, intent(inout) :: {a}({a_dim})")
         for a in self.arrays2:
-            decl.append(f"  real, intent(inout) :: {a}({M_LO}:{M_HI},{M_LO}:{M_HI})")
+            decl.append(f"  real, intent(inout) :: {a}({m_dim},{m_dim})")
         decl.append("  real, intent(inout) :: " + ", ".join(self.scalars))
         decl.append("  real, intent(in) :: p, q")
-        decl.append(f"  real, intent(in) :: cf({A_LO}:{A_HI})")
+        decl.append(f"  real, intent(in) :: cf({a_dim})")
         if not self.real_only:
             decl.append("  integer, intent(in) :: n1, n2, k1")
             decl.append("  logical, intent(in) :: lg")
